@@ -73,6 +73,10 @@ DOCS = {
     "D": mk("../../Evil/Title", ["Alpha"], ["opA"], tag="/abs/tag"),
     "E": mk("/abs/../Other Title", ["Alpha"], ["opA"], tag="."),
 }
+# F: operations with several tags; every tag after the first is hostile (matters when generate_all_tags is on)
+DOCS["F"] = mk("Same Title", ["Alpha"], ["opA", "opF"], tag="store")
+for _i, (_p, _item) in enumerate(DOCS["F"]["paths"].items()):
+    _item["get"]["tags"] = ["store", "../../../escaped_rel", "/tmp/specmc_c19_escaped_abs/x", "..", "a/b"][: 3 + 2 * _i]
 USER_FILES = ("USER.txt", "user_mod.py")
 
 
@@ -87,6 +91,13 @@ def commands(tier):
         for meta in (("none",) if tier == "quick" else ("none", "poetry")):
             for ow in (False, True):
                 cmds.append(["gen", d, meta, ow, "outpath"])
+    for meta in ("none", "poetry"):
+        for ow in (False, True):
+            cmds.append(["gen", "F", meta, ow, "default", "alltags"])
+    if tier != "quick":
+        for ow in (False, True):
+            cmds.append(["gen", "F", "none", ow, "outpath", "alltags"])
+            cmds.append(["gen", "C", "none", ow, "default", "alltags"])
     cmds += [["user", "root"], ["user", "pkg"], ["user", "modify"]]
     return cmds
 
@@ -148,27 +159,27 @@ def _sandbox():
     return gen.scratch_root() / "c19sb"
 
 
-def _docfile(name):
+def _docfile(name, cfgname="plain"):
     p = gen.scratch_root() / f"c19doc_{name}.json"
     if not p.exists():
         p.write_text(json.dumps(DOCS[name]))
-    cfg = gen.scratch_root() / "c19cfg.yml"
+    cfg = gen.scratch_root() / f"c19cfg_{cfgname}.yml"
     if not cfg.exists():
-        cfg.write_text("post_hooks: []\n")
+        cfg.write_text("post_hooks: []\n" + ("generate_all_tags: true\n" if cfgname == "alltags" else ""))
     return p, cfg
 
 
 _FRESH = {}
 
 
-def fresh(doc, meta, loc):
+def fresh(doc, meta, loc, cfgname="plain"):
     """(output directory relative to the sandbox, tree of a fresh generation from the empty state)."""
-    key = (doc, meta, loc)
+    key = (doc, meta, loc, cfgname)
     if key not in _FRESH:
         sb = gen.scratch_root() / "c19fresh"
         restore(sb, {"work/.keep": b""})
         before = set(read_all(sb))
-        r = _invoke(sb, doc, meta, False, loc)
+        r = _invoke(sb, doc, meta, False, loc, cfgname)
         after = read_all(sb)
         new = sorted(k for k in after if k not in before)
         top = sorted({"/".join(k.split("/")[:2]) for k in new})
@@ -179,11 +190,11 @@ def fresh(doc, meta, loc):
     return _FRESH[key]
 
 
-def _invoke(sb, doc, meta, ow, loc):
+def _invoke(sb, doc, meta, ow, loc, cfgname="plain"):
     runner, app = _cli()
     work = Path(sb) / "work"
     work.mkdir(exist_ok=True)
-    docp, cfg = _docfile(doc)
+    docp, cfg = _docfile(doc, cfgname)
     args = ["generate", "--path", str(docp), "--meta", meta, "--config", str(cfg)] + (["--overwrite"] if ow else [])
     if loc == "outpath":
         args += ["--output-path", str(work / "out")]
@@ -230,13 +241,14 @@ def step(files, flavours, cmd):
         after = read_all(sb)
         shutil.rmtree(sb, ignore_errors=True)
         return after, flavours, viol, None
-    _, doc, meta, ow, loc = cmd
-    outdir, ftree, fexit, ftop = fresh(doc, meta, loc)
-    key = f"{doc}/{meta}/{'ow' if ow else 'no-ow'}/{loc}"
+    _, doc, meta, ow, loc = cmd[:5]
+    cfgname = cmd[5] if len(cmd) > 5 else "plain"
+    outdir, ftree, fexit, ftop = fresh(doc, meta, loc, cfgname)
+    key = f"{doc}/{meta}/{'ow' if ow else 'no-ow'}/{loc}" + (f"/{cfgname}" if cfgname != "plain" else "")
     if outdir is None:
         shutil.rmtree(sb, ignore_errors=True)
         return before, flavours, [{"oracle": "fresh-generation", "site": "-", "key": key, "detail": f"fresh generation wrote to {ftop} (exit {fexit})"}], None
-    r = _invoke(sb, doc, meta, ow, loc)
+    r = _invoke(sb, doc, meta, ow, loc, cfgname)
     after = read_all(sb)
     writes = list(WRITES)
     abs_out = os.path.realpath(os.path.join(sb, outdir))
@@ -342,4 +354,4 @@ def drive(ctx):
 def _label(cmd):
     if cmd[0] == "user":
         return f"user-edit:{cmd[1]}"
-    return f"gen:{cmd[1]}:{cmd[2]}:{'overwrite' if cmd[3] else 'no-overwrite'}:{cmd[4]}"
+    return f"gen:{cmd[1]}:{cmd[2]}:{'overwrite' if cmd[3] else 'no-overwrite'}:{cmd[4]}" + (f":{cmd[5]}" if len(cmd) > 5 else "")
